@@ -37,7 +37,7 @@ DS_ATTRS = {"title": "ds", "hist": [1, 2]}
 
 
 def budget(tier):
-    return {"quick": dict(examples=1200, shards=1), "thorough": dict(examples=12000, shards=16)}[tier]
+    return {"quick": dict(examples=2500, shards=1), "thorough": dict(examples=12000, shards=16)}[tier]
 
 
 @st.composite
